@@ -323,7 +323,7 @@ class _Hd:
 
 
 # ---------------- object history: a Bezier object follows its current control points and duration ---------------------------------
-HOPS = ["eval", "d1", "d2", "d0", "setP", "poke", "setT"]
+HOPS = ["eval", "d1", "d2", "d0", "setP", "poke", "setT", "fork"]
 
 
 def run_history(n, dim, word, seed):
@@ -357,6 +357,13 @@ def run_history(n, dim, word, seed):
         elif op == "setT":
             T = T * 3 / 2
             B.T = float(T)
+        elif op == "fork":
+            # a shallow copy of the curve is given other control points and differentiated (re-planning from a copy): the original keeps its own
+            import copy
+            B2 = copy.copy(B)
+            B2.P = ca.DM([[float(x) + 3.0 for x in r] for r in rows2])
+            for m_ in range(1, min(n, 2) + 1):
+                B2.deriv(m_).eval(0.5)
     return out
 
 
@@ -378,13 +385,13 @@ def explore_history(case):
             except Exception as ex:
                 res.fail(site="Bezier", clause="operation_raises", cls="history", detail=dict(word=list(word), error="%s: %s" % (type(ex).__name__, str(ex)[:200])), sub="history", case=case)
                 continue
-            if any(o in word for o in ("setP", "poke", "setT")):
+            if any(o in word for o in ("setP", "poke", "setT", "fork")):
                 res.nontrivial.add(hash((n, dim, word)))
             res.outcomes.add(hash(tuple(tuple(w) for _, _, w in obs)))
             for op, got, want in obs[-1:]:
                 seen.add(tuple(want))
                 if got.shape != (len(want),) or not np.all(np.isfinite(got)) or max(abs(g - w) for g, w in zip(got, want)) > 1e-11 * (1 + max(abs(w) for w in want)):
-                    res.fail(site="Bezier.eval" if op == "eval" else "Bezier.deriv", clause="object_follows_current_control_points_and_duration", cls="after_" + "_".join(sorted(set(word[:-1]) & {"setP", "poke", "setT"})) or "-",
+                    res.fail(site="Bezier.eval" if op == "eval" else "Bezier.deriv", clause="object_follows_current_control_points_and_duration", cls="after_" + "_".join(sorted(set(word[:-1]) & {"setP", "poke", "setT", "fork"})) or "-",
                              detail=dict(n=n, dim=dim, word=list(word), got=got, want=want), sub="history", case=case)
     res.count("states", len(seen))
     res.samples.append(dict(history_n=n, dim=dim, depth=depth))
@@ -497,6 +504,37 @@ def explore_numeric(case):
         except Exception as ex:
             res.count("evaluations")
             res.fail(site="Bezier", clause="operation_raises", cls="numeric;sequence", detail=dict(sequence=[curves[c][0] for c in word], error="%s: %s" % (type(ex).__name__, str(ex)[:200])), sub="numeric", case=case)
+    # (c) two curves of the same shape evaluated / differentiated in two threads, every interleaving of bezier.py's statements with at most one
+    # preemption (thorough: two)
+    from .. import threads
+    A1, A2 = np.array([curves[6][1], curves[7][1], curves[3][1]]), np.array([curves[7][1][::-1], curves[6][1] * 2.0, curves[1][1]])
+
+    def mkcall(A_, m_):
+        def call():
+            B_ = bz().Bezier(ca.DM(A_), T)
+            C_ = B_ if m_ == 0 else B_.deriv(m_)
+            return np.array(ca.evalf(ca.densify(ca.SX(C_.eval(0.3 * T)))), dtype=float).tobytes()
+        return call
+    quiet = contextlib.redirect_stdout(io.StringIO())
+    quiet.__enter__()
+    try:
+        for ma, mb in ((0, 0), (1, 1), (0, min(n, 2))):
+            fa, fb = mkcall(A1, min(ma, n)), mkcall(A2, min(mb, n))
+            alone = [fa(), fb()]
+            for choices, results, npts, capped in threads.explore([fa, fb], ("cyecca/models/bezier.py",), 1 if tier == "quick" else 2, max_runs=(1500 if tier == "quick" else 40000)):
+                if capped:
+                    res.counters["thread_schedules_capped"] += 1
+                    break
+                res.count("evaluations")
+                res.count("schedules")
+                res.nontrivial.add(hash(("threads", n, ma, mb, tuple(choices))))
+                res.counters["max_scheduling_points"] = max(res.counters["max_scheduling_points"], npts)
+                bad = [k for k, r_ in enumerate(results) if r_ is None or r_[0] != "ok" or r_[1] != alone[k]]
+                if bad:
+                    res.fail(site="Bezier.eval" if (ma, mb) == (0, 0) else "Bezier.deriv", clause="curve_independent_of_a_concurrent_evaluation", cls="threads", detail=dict(n=n, derivatives=[ma, mb], thread=bad[0], schedule=choices), sub="numeric", case=case)
+                    break
+    finally:
+        quiet.__exit__(None, None, None)
     res.samples.append(dict(numeric_n=n, curves=[c for c, _ in curves], forms=[f for f, _ in storage_forms(np.zeros((1, n + 1)))], sequence_depth=depth))
     return res
 
